@@ -159,7 +159,8 @@ mod imp {
         ub: UnfBuf,
         scratch: usize,
         limit: usize,
-        unpaid: bool,
+        /// some frame start was refused by `Limits` (and, on the repaired tree, not installed)
+        limit_hit: bool,
         flushed: bool,
         ops: Vec<String>,
         obs: Vec<String>,
@@ -187,7 +188,7 @@ mod imp {
             let (len, out_pos, read_pos, _) = z;
             self.ops.push(op);
             self.obs.push(format!("{}:{}:{}/{}:{}:{}/{}/{}/{}{}", d.len(), p, c, len, out_pos, read_pos, self.scratch, self.limit,
-                if self.flushed { "f" } else { "-" }, if self.unpaid { "u" } else { "-" }));
+                if self.flushed { "f" } else { "-" }, if self.limit_hit { "u" } else { "-" }));
             self.z_high = self.z_high.max(len);
             let m = W.max(self.flush_high);
             let bound = 2 * self.rowlen + m;
@@ -292,7 +293,7 @@ mod imp {
         let chunk = *rng.pick(&[7usize, 300, 8192, 100_000, usize::MAX]);
         let chunk = if class > 0 && chunk < 8192 { 8192 } else { chunk };
         let mut s = Sim {
-            zs: Zlib::new(), ub: UnfBuf::new(), scratch: 0, limit: l0 - frames[0].out_line, unpaid: false, flushed: false,
+            zs: Zlib::new(), ub: UnfBuf::new(), scratch: 0, limit: l0 - frames[0].out_line, limit_hit: false, flushed: false,
             ops: vec![], obs: vec![], flush_high: 0, tmp_high: 0, z_high: 0, deliver_high: 0, ub_peak_pct: 0, oracle: None,
             rowlen: frames[0].rowlen, dead: false,
         };
@@ -309,6 +310,8 @@ mod imp {
         }
         let finish_early = rng.chance(1, 10);
         let mut finished = false;
+        // output line of the frame that is installed (and paid for)
+        let mut cur_line = frames[0].out_line;
         'frames: for (fi, f) in frames.iter().enumerate() {
             let mut z = f.z.clone();
             z.extend(rng.bytes(junk));
@@ -317,15 +320,40 @@ mod imp {
             // the decoder has flushed this chunk sequence (`ImageDataFlushed`)
             let mut seq_done = false;
             if !finished {
+                let mut installed = true;
                 if fi > 0 {
-                    s.ub = UnfBuf::new();
-                    s.flushed = false;
-                    s.rowlen = f.rowlen;
-                    if f.out_line <= s.limit { s.limit -= f.out_line } else { s.unpaid = true }
-                    s.record(format!("N{}:{}:{}", f.rowlen, f.out_line, f.bpp));
+                    // `Reader::read_until_image_data`: reserve FIRST, install the frame only on success
+                    if f.out_line <= s.limit {
+                        s.limit -= f.out_line;
+                        s.ub = UnfBuf::new();
+                        s.flushed = false;
+                        s.rowlen = f.rowlen;
+                        cur_line = f.out_line;
+                        s.record(format!("N{}:{}:{}", f.rowlen, f.out_line, f.bpp));
+                    } else {
+                        // refused: the old frame stays (no rows, no frames left); the call returns LimitsExceeded
+                        installed = false;
+                        s.limit_hit = true;
+                        s.record(format!("N{}:{}:{}", f.rowlen, f.out_line, f.bpp));
+                        if rng.bool() {
+                            // a row call answers Ok(None) after sizing the scratch row by the OLD, paid-for frame
+                            s.scratch = cur_line;
+                            s.record("s".into());
+                        }
+                        if rng.bool() {
+                            // `finish()`: the rest (the refused frame's data included) is read and discarded
+                            s.ub = UnfBuf::new();
+                            finished = true;
+                            s.record("e".into());
+                        } else {
+                            note = "frame-refused";
+                            break 'frames;
+                        }
+                    }
                 }
                 let mut rows_done = 0usize;
                 'passes: for p in &f.passes {
+                    if !installed { break; }
                     let nrows: usize = p.groups.iter().map(|g| g.1).sum();
                     for line in 0..nrows {
                         if rows_done >= f.read_rows || (finish_early && rows_done >= 1) { break 'passes; }
@@ -360,7 +388,7 @@ mod imp {
                         }
                     }
                 }
-                if finish_early {
+                if finish_early && installed {
                     // `Reader::finish`: everything up to IEND is read and discarded, no further frame is started
                     s.ub = UnfBuf::new();
                     s.flushed = true;
@@ -512,6 +540,7 @@ mod imp {
         let mut ops: Vec<String> = vec![];
         let mut caps: Vec<usize> = vec![];
         let mut refused_then_row = None;
+        let mut row_after_refusal = false;
         let mut charged = lines[0];
         let res = guarded(|| {
             let mut dec = png::Decoder::new_with_limits(std::io::Cursor::new(file.clone()), png::Limits { bytes: l0 });
@@ -535,6 +564,7 @@ mod imp {
                     let got = matches!(r.next_row(), Ok(Some(_)));
                     ops.push("s".into());
                     caps.push(r.verif_counters().3);
+                    if got && refused_then_row.is_some() { row_after_refusal = true; }
                     if !got { break; }
                 }
             }
@@ -553,12 +583,12 @@ mod imp {
             }
             Ok(true) => {}
         }
-        // oracle: the scratch row is covered by what was charged (capacity <= max(8, 2 * charged))
-        if let Some(&cap) = caps.iter().max() {
-            if cap > (2 * charged).max(8) {
-                ctx.rep.violation("oracle", "scratch-row-after-refused-frame", &format!("Limits{{bytes: {}}}: {} bytes charged for output lines, scratch_buffer.capacity() reached {} (frame {} was refused with LimitsExceeded by next_frame_info; the next next_row decoded it anyway: mod.rs:363-369 installs the subframe before reserve_bytes)",
-                    l0, charged, cap, refused_then_row.map(|k| k.to_string()).unwrap_or("-".into())), case());
-            }
+        // oracle: after a refused frame start no row is delivered, and the scratch row is covered by what was charged
+        // (capacity <= max(8, 2 * charged)); this is the defect repaired by 0a2b38f and must fire again if it returns
+        let cap_max = caps.iter().copied().max().unwrap_or(0);
+        if row_after_refusal || cap_max > (2 * charged).max(8) {
+            ctx.rep.violation("oracle", "scratch-row-after-refused-frame", &format!("Limits{{bytes: {}}}: {} bytes charged for output lines; frame {} was refused with LimitsExceeded by next_frame_info; afterwards next_row delivered a row: {}; scratch_buffer.capacity() reached {} (Reader::read_until_image_data must reserve before it installs the subframe)",
+                l0, charged, refused_then_row.map(|k| k.to_string()).unwrap_or("-".into()), row_after_refusal, cap_max), case());
         }
         // model: scratchLen after every op, through the growth policy, is the capacity
         let streams = vec!["-"; nframes].join(";");
@@ -578,9 +608,9 @@ mod imp {
                 return;
             }
         }
-        let unpaid_model = toks.get(caps.len().saturating_sub(1)).map(|t| t.ends_with('u')).unwrap_or(false);
-        if unpaid_model != refused_then_row.is_some() {
-            ctx.rep.violation("model", "ledger/refusal", &format!("frame start refused: implementation {}, model {}", refused_then_row.is_some(), unpaid_model), case().set("line", J::s(&line)));
+        let refused_model = toks.get(caps.len().saturating_sub(1)).map(|t| t.ends_with('u')).unwrap_or(false);
+        if refused_model != refused_then_row.is_some() {
+            ctx.rep.violation("model", "ledger/refusal", &format!("frame start refused: implementation {}, model {}", refused_then_row.is_some(), refused_model), case().set("line", J::s(&line)));
         }
     }
 
@@ -589,7 +619,7 @@ mod imp {
             (1-3 frames, 1-7 passes, row lengths 2..72001, streams up to 1.4 MB incl. tails beyond the image, truncated data, unknown filter bytes, corrupted streams, wrong max_total_output, \
             input pieces of 7 B..whole); after every operation (data_stream.len, prev_start, current_start, out_buffer.len, out_pos, read_pos) = model, and oracle: data_stream.len + 2 <= 2*rowlen + max(W, F), \
             out_buffer.len <= W = {}, discard vector <= max(W, F), F = largest finish_compressed_chunks output seen; (2) real Reader on APNGs under Limits a later frame may exceed: scratch_buffer.capacity() = vecGrow(model scratchLen), \
-            oracle: capacity <= max(8, 2 * bytes charged for lines); non-trivial: more than 2 operations", W));
+            oracle: after a refused frame start no row is delivered and capacity <= max(8, 2 * bytes charged for lines); non-trivial: more than 2 operations", W));
         let mut rng = ctx.rng.fork(0xC06D);
         let plan: [(u8, usize); 3] = [(0, ctx.n(120, 1500)), (1, ctx.n(30, 300)), (2, ctx.n(6, 60))];
         let (mut max_f, mut max_d, mut max_z) = (0usize, 0usize, 0usize);
